@@ -474,7 +474,7 @@ func ruleARI3(p *Program) *RuleResult {
 			}
 		}
 	}
-	r.floor("float_to_int_sites", 3)
+	r.floor("float_to_int_sites", 1)
 	return r
 }
 
